@@ -1,9 +1,185 @@
-// C10: feature-rich base configurations and auxiliary files beyond the repository's test inputs
+// C10: feature-rich base configurations and auxiliary files beyond the repository's test inputs.
+// Every configuration here must load and run cleanly on the unchanged tree (checked at start-up:
+// a base that is not accepted is a HARNESS-ERROR).  One keyword per line.
 #ifndef C10_EXTRAS_H
 #define C10_EXTRAS_H
 #include <map>
 #include <string>
 #include <vector>
-inline std::map<std::string, std::string> c10_extra_files() { return {}; }
-inline std::vector<std::pair<std::string, std::string>> c10_extra_configs() { return {}; }
+
+inline std::map<std::string, std::string> c10_extra_files()
+{
+  std::map<std::string, std::string> f;
+  // Cartesian path nodes (4 atoms each)
+  f["c10_node1.xyz"] = "4\nnode 1\nC 0.0 0.0 0.0\nC 1.5 0.0 0.0\nC 1.5 1.5 0.0\nC 0.0 1.5 1.0\n";
+  f["c10_node2.xyz"] = "4\nnode 2\nC 0.0 0.0 0.0\nC 1.6 0.1 0.0\nC 1.7 1.6 0.2\nC 0.2 1.9 1.4\n";
+  f["c10_node3.xyz"] = "4\nnode 3\nC 0.0 0.0 0.0\nC 1.7 0.2 0.1\nC 2.0 1.7 0.5\nC 0.5 2.3 1.9\n";
+  f["c10_node4.xyz"] = "4\nnode 4\nC 0.0 0.0 0.0\nC 1.8 0.3 0.2\nC 2.3 1.8 0.9\nC 0.9 2.7 2.5\n";
+  // path in CV space (2 dihedrals)
+  f["c10_path.txt"] = " -80.0  60.0\n -70.0  80.0\n -60.0 100.0\n -50.0 120.0\n -40.0 140.0\n";
+  // dense network 2 -> 2 -> 1
+  f["c10_w1.txt"] = "0.5 -0.25\n0.125 0.75\n";
+  f["c10_b1.txt"] = "0.1\n-0.2\n";
+  f["c10_w2.txt"] = "1.0 -1.0\n";
+  f["c10_b2.txt"] = "0.05\n";
+  // target distribution for ebMeta (multicolumn grid, 1 variable, 20 bins of 1.0 from 2.0)
+  {
+    std::string g = "# 1\n#  2.0  1.0  20  0\n\n";
+    for (int i = 0; i < 20; i++) g += "  " + std::to_string(2.5 + i) + "  " + std::to_string(0.02 + 0.003 * i) + "\n";
+    f["c10_target.dat"] = g;
+  }
+  return f;
+}
+
+#define C10_D(name, a, b) \
+  "colvar {\n name " name "\n width 0.5\n lowerBoundary 2.0\n upperBoundary 22.0\n distance {\n group1 {\n atomNumbers " a "\n }\n group2 {\n atomNumbers " b "\n }\n }\n}\n"
+#define C10_T(name, a, b, c, d) \
+  "colvar {\n name " name "\n width 10.0\n lowerBoundary -180.0\n upperBoundary 180.0\n dihedral {\n group1 {\n atomNumbers " a "\n }\n group2 {\n atomNumbers " b "\n }\n group3 {\n atomNumbers " c "\n }\n group4 {\n atomNumbers " d "\n }\n }\n}\n"
+
+inline std::vector<std::pair<std::string, std::string>> c10_extra_configs()
+{
+  std::vector<std::pair<std::string, std::string>> v;
+  auto add = [&](const char *n, std::string const &c) { v.push_back(std::make_pair(std::string(n), c)); };
+
+  add("colvar-extended-analysis",
+      "colvarsTrajFrequency 1\ncolvarsRestartFrequency 2\n"
+      "colvar {\n name d\n width 0.5\n lowerBoundary 2.0\n upperBoundary 30.0\n hardLowerBoundary on\n hardUpperBoundary off\n"
+      " expandBoundaries on\n extendedLagrangian on\n extendedFluctuation 0.2\n extendedTimeConstant 100.0\n"
+      " extendedTemp 300.0\n extendedLangevinDamping 1.0\n subtractAppliedForce on\n outputValue on\n outputVelocity on\n"
+      " outputEnergy on\n outputTotalForce on\n outputAppliedForce on\n timeStepFactor 1\n"
+      " runAve on\n runAveLength 2\n runAveStride 1\n runAveOutputFile c10.runave\n"
+      " distance {\n group1 {\n atomNumbers 1 2 3\n }\n group2 {\n atomNumbers 50 51\n }\n }\n}\n"
+      "harmonic {\n colvars d\n centers 12.0\n forceConstant 1.0\n}\n");
+
+  add("colvar-corrfunc",
+      "colvarsTrajFrequency 1\n"
+      "colvar {\n name d\n outputVelocity on\n corrFunc on\n corrFuncType velocity\n corrFuncLength 2\n corrFuncStride 1\n"
+      " corrFuncOffset 0\n corrFuncNormalize on\n corrFuncOutputFile c10.corrfunc\n"
+      " distance {\n group1 {\n atomNumbers 1 2 3\n }\n group2 {\n atomNumbers 50 51\n }\n }\n}\n"
+      "colvar {\n name e\n corrFunc on\n corrFuncWithColvar d\n corrFuncType coordinate\n corrFuncLength 3\n corrFuncStride 2\n"
+      " distance {\n group1 {\n atomNumbers 10\n }\n group2 {\n atomNumbers 70\n }\n }\n}\n");
+
+  add("colvar-multi-cvc",
+      "colvar {\n name lc\n"
+      " distance {\n name d1\n componentCoeff 2.0\n componentExp 2\n group1 {\n atomNumbers 1\n }\n group2 {\n atomNumbers 30\n }\n }\n"
+      " distanceZ {\n name z1\n componentCoeff -0.5\n axis (0.0, 0.0, 1.0)\n main {\n atomNumbers 5 6\n }\n ref {\n atomNumbers 40 41\n }\n ref2 {\n atomNumbers 80\n }\n }\n"
+      "}\n"
+      "colvar {\n name zper\n distanceZ {\n period 8.0\n wrapAround 1.0\n forceNoPBC on\n oneSiteTotalForce on\n main {\n atomNumbers 5\n }\n ref {\n atomNumbers 40\n }\n }\n}\n"
+      "harmonic {\n colvars lc zper\n centers 10.0 0.5\n forceConstant 0.1\n}\n");
+
+  add("atomgroup-rich",
+      "colvar {\n name g\n distance {\n"
+      "  group1 {\n name grp_a\n atomNumbersRange 1-6\n atomNumbers 9 11\n centerToOrigin off\n centerToReference on\n rotateToReference on\n"
+      "   refPositions (1.0, 0.0, 0.0) (0.0, 1.0, 0.0) (0.0, 0.0, 1.0) (1.0, 1.0, 0.5)\n"
+      "   enableFitGradients on\n enableForces on\n printAtomIDs on\n"
+      "   fittingGroup {\n atomNumbers 20 21 22 23\n }\n"
+      "  }\n"
+      "  group2 {\n dummyAtom (1.0, 2.0, 3.0)\n }\n"
+      " }\n}\n"
+      "colvar {\n name g2\n distance {\n group1 {\n atomsOfGroup grp_a\n }\n group2 {\n atomNumbers 90 91\n }\n }\n}\n"
+      "harmonic {\n colvars g g2\n centers 5.0 5.0\n forceConstant 0.5\n}\n");
+
+  add("cvc-cartesian-polar",
+      "colvar {\n name cart\n cartesian {\n atoms {\n atomNumbers 3 4\n }\n }\n}\n"
+      "colvar {\n name pth\n polarTheta {\n atoms {\n atomNumbers 3 4 5\n }\n }\n}\n"
+      "colvar {\n name pph\n polarPhi {\n atoms {\n atomNumbers 3 4 5\n }\n }\n}\n"
+      "harmonic {\n colvars pth pph\n centers 90.0 10.0\n forceConstant 0.01\n}\n");
+
+  add("cvc-alchlambda",
+      "colvar {\n name lam\n lowerBoundary 0.0\n upperBoundary 1.0\n width 0.1\n alchLambda {\n name al\n }\n}\n"
+      "colvar {\n name flam\n alchFLambda {\n name afl\n }\n}\n");
+
+  add("cvc-cartesian-paths",
+      "colvar {\n name as\n aspath {\n lambda 0.5\n atoms {\n atomNumbers 5 7 9 15\n }\n refPositionsFile1 c10_node1.xyz\n refPositionsFile2 c10_node2.xyz\n refPositionsFile3 c10_node3.xyz\n refPositionsFile4 c10_node4.xyz\n }\n}\n"
+      "colvar {\n name az\n azpath {\n lambda 0.5\n atoms {\n atomNumbers 5 7 9 15\n }\n refPositionsFile1 c10_node1.xyz\n refPositionsFile2 c10_node2.xyz\n refPositionsFile3 c10_node3.xyz\n refPositionsFile4 c10_node4.xyz\n }\n}\n"
+      "colvar {\n name gs\n gspath {\n useSecondClosestFrame on\n useThirdClosestFrame off\n atoms {\n atomNumbers 5 7 9 15\n }\n refPositionsFile1 c10_node1.xyz\n refPositionsFile2 c10_node2.xyz\n refPositionsFile3 c10_node3.xyz\n refPositionsFile4 c10_node4.xyz\n }\n}\n"
+      "colvar {\n name gz\n gzpath {\n useSecondClosestFrame on\n useZsquare off\n atoms {\n atomNumbers 5 7 9 15\n }\n refPositionsFile1 c10_node1.xyz\n refPositionsFile2 c10_node2.xyz\n refPositionsFile3 c10_node3.xyz\n refPositionsFile4 c10_node4.xyz\n }\n}\n"
+      "harmonic {\n colvars as gs\n centers 0.5 0.5\n forceConstant 1.0\n}\n");
+
+#define C10_SUBDIH \
+  " dihedral {\n name 001\n group1 {\n atomNumbers 5\n }\n group2 {\n atomNumbers 7\n }\n group3 {\n atomNumbers 9\n }\n group4 {\n atomNumbers 15\n }\n }\n" \
+  " dihedral {\n name 002\n group1 {\n atomNumbers 15\n }\n group2 {\n atomNumbers 17\n }\n group3 {\n atomNumbers 19\n }\n group4 {\n atomNumbers 25\n }\n }\n"
+
+  add("cvc-cv-paths",
+      "colvar {\n name gs\n gspathCV {\n" C10_SUBDIH " pathFile c10_path.txt\n useSecondClosestFrame on\n }\n}\n"
+      "colvar {\n name gz\n gzpathCV {\n" C10_SUBDIH " pathFile c10_path.txt\n useZsquare on\n }\n}\n"
+      "colvar {\n name as\n aspathCV {\n lambda 0.006\n weights 1.0 0.5\n" C10_SUBDIH " pathFile c10_path.txt\n }\n}\n"
+      "colvar {\n name az\n azpathCV {\n lambda 0.006\n" C10_SUBDIH " pathFile c10_path.txt\n }\n}\n"
+      "harmonic {\n colvars gs as\n centers 0.5 0.5\n forceConstant 1.0\n}\n");
+
+  add("cvc-lincomb-nn",
+      "colvar {\n name lc\n linearCombination {\n" C10_SUBDIH " }\n}\n"
+      "colvar {\n name nn\n neuralNetwork {\n output_component 0\n layer1_WeightsFile c10_w1.txt\n layer1_BiasesFile c10_b1.txt\n layer1_activation tanh\n"
+      " layer2_WeightsFile c10_w2.txt\n layer2_BiasesFile c10_b2.txt\n layer2_activation tanh\n" C10_SUBDIH " }\n}\n"
+      "harmonic {\n colvars lc nn\n centers 10.0 0.1\n forceConstant 0.01\n}\n");
+
+  add("meta-rich",
+      "colvarsTrajFrequency 1\ncolvarsRestartFrequency 2\n" C10_D("d", "1 2", "60 61") C10_T("t", "5", "7", "9", "15")
+      "metadynamics {\n name m\n colvars d t\n hillWeight 0.05\n gaussianSigmas 0.6 12.0\n newHillFrequency 1\n useGrids on\n"
+      " gridsUpdateFrequency 2\n rebinGrids off\n wellTempered on\n biasTemperature 2000.0\n keepHills on\n"
+      " writeFreeEnergyFile on\n keepFreeEnergyFiles on\n writeHillsTrajectory on\n outputFreq 2\n outputEnergy on\n timeStepFactor 1\n}\n");
+
+  add("meta-ebmeta",
+      C10_D("d", "1 2", "60 61")
+      "metadynamics {\n name m\n colvars d\n hillWeight 0.05\n hillWidth 1.5\n newHillFrequency 2\n ebMeta on\n targetDistFile c10_target.dat\n"
+      " targetDistMinVal 0.05\n ebMetaEquilSteps 2\n}\n");
+
+  add("meta-nogrid",
+      C10_D("d", "1 2", "60 61")
+      "metadynamics {\n name m\n colvars d\n hillWeight 0.05\n hillWidth 1.5\n newHillFrequency 1\n useGrids off\n writeHillsTrajectory on\n}\n");
+
+  add("abf-czar",
+      "colvarsTrajFrequency 1\ncolvarsRestartFrequency 2\n"
+      "colvar {\n name d\n width 0.5\n lowerBoundary 2.0\n upperBoundary 22.0\n extendedLagrangian on\n extendedFluctuation 0.2\n extendedTimeConstant 100\n"
+      " subtractAppliedForce on\n distance {\n group1 {\n atomNumbers 1 2\n }\n group2 {\n atomNumbers 60 61\n }\n }\n}\n"
+      "abf {\n name a\n colvars d\n fullSamples 2\n minSamples 1\n historyFreq 2\n maxForce 10.0\n CZARestimator on\n writeCZARwindowFile on\n"
+      " UIestimator off\n integrate on\n hideJacobian off\n applyBias on\n updateBias on\n shared off\n outputFreq 2\n}\n");
+
+  add("abf-2d-integrate",
+      C10_T("t1", "5", "7", "9", "15") C10_T("t2", "15", "17", "19", "25")
+      "abf {\n name a\n colvars t1 t2\n fullSamples 1\n historyFreq 2\n integrate on\n integrateMaxIterations 50\n integrateTol 1e-4\n"
+      " pABFintegrateFreq 2\n pABFintegrateMaxIterations 20\n pABFintegrateTol 1e-3\n outputFreq 2\n}\n");
+
+  add("abf-ui",
+      "colvar {\n name d\n width 0.5\n lowerBoundary 2.0\n upperBoundary 22.0\n extendedLagrangian on\n extendedFluctuation 0.2\n extendedTimeConstant 100\n"
+      " distance {\n group1 {\n atomNumbers 1 2\n }\n group2 {\n atomNumbers 60 61\n }\n }\n}\n"
+      "abf {\n name a\n colvars d\n fullSamples 1\n UIestimator on\n CZARestimator off\n outputFreq 2\n}\n");
+
+  add("opes-adaptive",
+      "colvarsRestartFrequency 2\n" C10_T("t1", "5", "7", "9", "15") C10_T("t2", "15", "17", "19", "25") C10_T("t3", "25", "27", "29", "35")
+      "opes_metad {\n name o\n colvars t1 t2 t3\n newHillFrequency 1\n barrier 10.0\n adaptiveSigma on\n adaptiveSigmaStride 2\n"
+      " neighborList on\n neighborListNewHillReset off\n printTrajectoryFrequency 1\n pmf on\n pmfColvars t2 t3\n pmfHistoryFrequency 2\n"
+      " outputEnergy on\n calcWork on\n recursiveMerge on\n compressionThreshold 1.0\n epsilon 1e-4\n kernelCutoff 4.0\n outputFreq 2\n}\n");
+
+  add("opes-fixed-explore",
+      "colvarsRestartFrequency 2\n" C10_T("t1", "5", "7", "9", "15") C10_T("t2", "15", "17", "19", "25")
+      "opes_metad {\n name o\n colvars t1 t2\n newHillFrequency 1\n barrier 8.0\n biasfactor 5.0\n explore on\n gaussianSigma 10.0 12.0\n"
+      " gaussianSigmaMin 1.0 1.0\n fixedGaussianSigma on\n noZed on\n printTrajectoryFrequency 2\n}\n");
+
+  add("alb",
+      C10_D("d", "1 2", "60 61")
+      "ALB {\n name alb\n colvars d\n centers 14.0\n updateFrequency 4\n forceRange 2.0\n rateMax 1.0\n outputCenters on\n outputGradient on\n outputCoupling on\n hardForceRange on\n}\n");
+
+  // reweightaMD needs accelerated MD in the engine (NAMD only): its keywords are reached through the error path only
+
+  add("histogram-grid",
+      C10_D("d", "1 2", "60 61") C10_T("t", "5", "7", "9", "15")
+      "histogram {\n name h\n colvars d t\n outputFile c10.hist.dat\n outputFileDX c10.hist.dx\n outputFreq 2\n"
+      " histogramGrid {\n width 1.0 20.0\n lowerBoundary 0.0 -180.0\n upperBoundary 30.0 180.0\n }\n}\n");
+
+  add("harmonic-schedules",
+      "colvarsTrajFrequency 1\n" C10_D("d", "1 2", "60 61") C10_D("e", "3 4", "70 71")
+      "harmonic {\n name hc\n colvars d\n centers 10.0\n forceConstant 1.0\n targetCenters 14.0\n targetNumSteps 4\n outputCenters on\n outputAccumulatedWork on\n outputEnergy on\n writeTIPMF on\n writeTISamples on\n}\n"
+      "harmonic {\n name hk\n colvars e\n centers 12.0\n forceConstant 1.0\n targetForceConstant 5.0\n targetForceExponent 2.0\n targetNumSteps 4\n targetEquilSteps 1\n lambdaSchedule 0.0 0.5 1.0\n}\n"
+      "linear {\n name lin\n colvars d\n centers 10.0\n forceConstant 0.2\n targetForceConstant 0.5\n targetNumSteps 4\n}\n"
+      "harmonicWalls {\n name hw\n colvars d e\n lowerWalls 3.0 3.0\n upperWalls 20.0 20.0\n lowerWallConstant 2.0\n upperWallConstant 3.0\n targetForceConstant 0.5\n targetNumSteps 4\n bypassExtendedLagrangian on\n}\n");
+
+  add("abmd-hrestraint",
+      C10_D("d", "1 2", "60 61")
+      "colvar {\n name dp\n distancePairs {\n group1 {\n atomNumbers 1 2\n }\n group2 {\n atomNumbers 60 61 62\n }\n }\n}\n"
+      "abmd {\n name ab\n colvars d\n forceConstant 2.0\n stoppingValue 20.0\n decreasing off\n}\n"
+      "histogramRestraint {\n name hr\n colvars dp\n refHistogram 1.0 1.0 1.0 1.0 1.0 1.0 1.0 1.0 1.0 1.0\n lowerBoundary 0.0\n upperBoundary 20.0\n width 2.0\n gaussianSigma 1.5\n forceConstant 1.0\n writeHistogram on\n outputEnergy on\n}\n");
+
+  return v;
+}
 #endif
